@@ -13,6 +13,10 @@ CLAIMED = {
             'codecs / json.dumps are environment parameters; conformance of the real writer rests on the correspondence run'),
     'C04': ('Lean 4 theorems (induction over every nested container history): reader and writer stacks equal the specification (nearest declaring ancestor), siblings never leak, diffs never inherit; exhaustive small-scope correspondence on reader and writer',
             'stack updates extracted as Reader.pushEnc / Writer.pushFrame mirror reader.py:252-266 and writer.py:452-460 (validated differentially)'),
+    'C05': ('Lean 4 theorems about the object-model models: to_bytes is the streaming writer run on the tree\'s call sequence (hence canonical by C02) and raises the first failure in document order, falsy contents are skipped, the loader rebuilds the shape (changes / files per change) for every record list, carries options verbatim minus length, and fails only with library errors (or the D13b TypeError); random trees through the public API against to_bytes / from_bytes with an independently written normalisation as oracle',
+            'the whole write->parse equality composes these with the per-section round trip of C01 and is decided differentially; known finding D25 (empty-string option values)'),
+    'C06': ('same Lean development as C05 (Dom.toBytes / Dom.fromBytes) plus the D14 witness; canonical files (streaming writer output) must re-serialise byte-identically, foreign files from the specification generator must re-serialise to a fixed point with the same contents; model vs implementation on from_bytes and on to_bytes of the loaded tree',
+            'known finding D14: foreign files with options the writer has no parameter for, or without any effective encoding, cannot be re-serialised'),
     'C07': ('Lean 4 theorems for every byte string and every cut point: content is framed by its declared length; with the length check switched on (model switch) the records of a truncated file are a prefix of the intact file records; the code as it is yields at most one extra short-read record (D12 witness proved in Lean and replayed every run); every truncation point of generated files against the real reader',
             'known finding D12 (short reads) is pinned by the unedited test-suite; classifier uses an instrumented stream'),
     'C12': ('Lean 4 theorems from any reader state: inserting a valid unknown option anywhere keeps the header accepted and every other key unchanged; option lists agreeing on the six keys the reader looks up give the same section and the same rest of the run; extended writer-produced and foreign files against the real reader',
@@ -29,6 +33,8 @@ CLAIMED = {
             "Python int() accepts '_' in digit strings: known finding D18 (witness proved in Lean, replayed every run)"),
     'C13': ('Lean 4 theorems: exact file counts for every diff assembled from well-formed hunks with garbage between them and any unbordered newline (composition of the split_lines and hunk-parser theorems), skipped diffs leave the file unchanged, merge preserves other keys, change / top level report sums of what their children report, only metadata is touched, generation is idempotent; multibyte-encoding witness (D15) proved; random trees with ground truth by construction against the real generate_stats',
             'known finding D15: diffs in encodings that are not ASCII-compatible count 0'),
+    'C19': ('Lean 4 theorems about the attribute / equality models: a typed option assignment succeeds iff the value has the declared type and is an allowed choice, then stores exactly that value and nothing else; content assignment iff data type; unknown names rejected; only the addressed section changes; equality reflexive (plain trees) and symmetric (unique keys), equal trees have the same shape, any single option / content change is seen; D16 witness; DOM class table tied to the code by the translator; random assignments with snapshots and tree pairs against the real classes',
+            'a failed assignment has no resulting tree in the model (Except): atomicity of the real setters is what the snapshot comparison checks; known finding D16 (1 == True)'),
     'C14': ('Lean 4 theorems for every hunk sequence / every line list: exact geometry for well-formed hunks with and without garbage tolerance, positioned MalformedHunkError for damage and premature end, no other outcome; exhaustive line lists + constructive generator against the real parser',
             'the hunk-header regex is hand-translated (Hunks.matchHeader) and validated against CPython re'),
     'C16': ('Lean 4 theorems about the executable model of split_lines for all inputs and all non-empty unbordered newlines; exhaustive bounded correspondence run on every check',
